@@ -1,0 +1,77 @@
+//! Verification-only access to crate-private components (compiled only with
+//! the cargo feature `verif`): documented wrapper types around the per-query
+//! lock table and the tiered backward-edge set, so that a harness can drive
+//! them directly with tiny capacities.
+
+use fxhash::FxBuildHasher;
+use qbice_storage::key_of_set_map::ConcurrentSet;
+
+use super::{
+    database::CompressedBackwardEdgeSet,
+    query_lock_manager::{QueryLock, QueryLockManager},
+};
+use crate::query::QueryID;
+
+/// The per-query shared/exclusive lock table with a caller-chosen capacity.
+pub struct LockTable(QueryLockManager);
+
+impl std::fmt::Debug for LockTable {
+    fn fmt(&self, f: &mut std::fmt::Formatter<'_>) -> std::fmt::Result {
+        f.debug_struct("LockTable").finish_non_exhaustive()
+    }
+}
+
+/// A held lock of the [`LockTable`]; released on drop.
+pub struct HeldLock(#[allow(unused)] QueryLock);
+
+impl std::fmt::Debug for HeldLock {
+    fn fmt(&self, f: &mut std::fmt::Formatter<'_>) -> std::fmt::Result {
+        f.debug_struct("HeldLock").finish_non_exhaustive()
+    }
+}
+
+impl LockTable {
+    /// Creates a lock table whose cache holds `capacity` lock instances.
+    #[must_use]
+    pub fn new(capacity: u64) -> Self { Self(QueryLockManager::new(capacity)) }
+
+    /// Acquires the shared lock of `id`.
+    pub async fn shared(&self, id: &QueryID) -> HeldLock {
+        HeldLock(self.0.acquire_shared_lock(id).await)
+    }
+
+    /// Acquires the exclusive lock of `id`.
+    pub async fn exclusive(&self, id: &QueryID) -> HeldLock {
+        HeldLock(self.0.acquire_exclusive_lock(id).await)
+    }
+}
+
+/// The tiered (small vector / large hash set) backward-edge set.
+#[derive(Clone, Default)]
+pub struct BackwardEdgeSet(CompressedBackwardEdgeSet<FxBuildHasher>);
+
+impl std::fmt::Debug for BackwardEdgeSet {
+    fn fmt(&self, f: &mut std::fmt::Formatter<'_>) -> std::fmt::Result {
+        f.debug_struct("BackwardEdgeSet").finish_non_exhaustive()
+    }
+}
+
+impl BackwardEdgeSet {
+    /// Inserts an element; returns whether it was new.
+    pub fn insert(&self, id: QueryID) -> bool { self.0.insert_element(id) }
+
+    /// Removes an element; returns whether it was present.
+    pub fn remove(&self, id: &QueryID) -> bool { self.0.remove_element(id) }
+
+    /// Number of elements.
+    #[must_use]
+    pub fn len(&self) -> usize { self.0.len() }
+
+    /// Whether the set is empty.
+    #[must_use]
+    pub fn is_empty(&self) -> bool { self.0.is_empty() }
+
+    /// All elements (one iteration under the set's own locks).
+    #[must_use]
+    pub fn elements(&self) -> Vec<QueryID> { self.0.iter().collect() }
+}
